@@ -8,7 +8,7 @@ from __future__ import annotations
 import ast
 import re
 
-from vp import harness, ty, tygen, universe
+from vp import harness, prelude, ty, tygen, universe
 from vp.ty import Ty
 
 ID = "C03"
@@ -188,6 +188,8 @@ def blame(o, t: Ty, accepts, style: int = 0, spelling_only: bool = False) -> str
         return "MixTuple<-tuple"
     if t.kind == "MixTuple" and isinstance(o, tuple):
         return "MixTuple<-tuple"
+    if is_family_typeddict(t) and isinstance(o, dict):
+        return f"TypedDict:inherited<-dict/{family_key_blame(o, t, accepts)}"
     if t.kind == "TypedDict" and isinstance(o, dict):
         declared = {n for n, _ in t.args[0]}
         extra = "/extra-keys" if set(o) - declared else "/declared-keys"
@@ -196,6 +198,34 @@ def blame(o, t: Ty, accepts, style: int = 0, spelling_only: bool = False) -> str
         return f"{leaf_desc(t)}<-cross-type-equal-literal"
     odesc = "tuple-subclass-instance" if isinstance(o, tuple) and type(o) is not tuple else type(o).__name__
     return f"{leaf_desc(t)}<-{odesc}{extra}"
+
+
+def family_key_blame(o: dict, t: Ty, accepts) -> str:
+    """Which key of a family TypedDict the disagreement hangs on (an omitted key whose addition, or a present key whose
+    removal, brings verdict and membership together again), described by HOW the class came to have that key."""
+    total, how = prelude.TDI_SPEC[t.extra]
+    good = {int: 1, str: "x", float: 1.5, bool: True}
+
+    def agree(oo) -> bool:
+        m = ty.member(oo, t)
+        try:
+            return m is not None and accepts(oo, t) == m
+        except Exception:  # noqa: BLE001
+            return False
+
+    def describe(name: str, state: str) -> str:
+        qual, declared_in = how[name]
+        where = "own" if declared_in == t.extra else "inherited"
+        return (f"{state}-key:{qual}:{where}(declaring-class-total={prelude.TDI_SPEC[declared_in][0]})"
+                f"/class-total={total}/required-keys={'none' if not any(r for _n, (_t, r) in t.args[0]) else 'some'}")
+
+    for name, (ft, _req) in t.args[0]:
+        if name not in o and agree({**o, name: good.get(ft.extra, 1)}):
+            return describe(name, "omitted")
+    for name, (_ft, _req) in t.args[0]:
+        if name in o and agree({k: v for k, v in o.items() if k != name}):
+            return describe(name, "present")
+    return "undeclared-keys" if set(o) - set(how) else "declared-keys"
 
 
 def runtime_accepts(o, t: Ty, style: int = 0) -> bool:
@@ -221,7 +251,33 @@ def types_for(ctx) -> list:
         if r not in seen:
             seen.add(r)
             ts.append(t)
+    # TypedDict inheritance family: all roots, one-level subclasses and two-base classes; two-level ones sampled (quick)
+    frng = ctx.rng.__class__(f"C03-tdi/{ctx.seed}")
+    ts.extend(tygen.typeddict_family(frng, ctx.pick(48, None)))
+    # finite classes (bool / Enum / IntEnum / Flag / IntFlag) and the unions of their literals
+    for t in [ty.Cls(c) for c in tygen.FINITE_CLASSES] + [u for _d, u in tygen.finite_literal_unions()]:
+        r = ty.render(t)
+        if r not in seen:
+            seen.add(r)
+            ts.append(t)
     return ts
+
+
+def is_family_typeddict(t: Ty) -> bool:
+    return t.kind == "TypedDict" and isinstance(t.extra, str) and t.extra.startswith("TDI_")
+
+
+def mentions_finite_class(t: Ty) -> bool:
+    if t.kind == "Cls":
+        return t.extra in tygen.FINITE_CLASSES
+    if t.kind == "Lit":
+        return type(t.extra.v) in tygen.FINITE_CLASSES
+    return t.kind == "Union" and any(mentions_finite_class(a) for a in t.args)
+
+
+_DICT_ITEMS = [it for it in universe.U if isinstance(it.obj, dict)]
+_FEW_NON_DICTS = [universe.U_BY_SRC[s_] for s_ in ("1", "'a'", "None", "[]", "(1, 'a')", "{'a'}", "dict")
+                  if s_ in universe.U_BY_SRC]
 
 
 def literal_member_items(t: Ty) -> list:
@@ -299,7 +355,9 @@ def check_runtime_pairs(ctx, t: Ty, items) -> list:
 
 def check_assign_batch(ctx, batch) -> None:
     """batch: list of (Ty, style, Item, member)."""
-    lines = ["from vp.prelude import *", "import typing", "def holder():"]
+    family = sorted({t.extra for t, _s, _it, _m in batch if is_family_typeddict(t)})  # not star-exported by the prelude
+    lines = ["from vp.prelude import *" + (f"; from vp.prelude import {', '.join(family)}" if family else ""),
+             "import typing", "def holder():"]
     for i, (t, style, it, m) in enumerate(batch):
         lines.append(f"    x{i}: {ty.render(t, style)} = {it.src}")
     source = "\n".join(lines) + "\n"
@@ -357,6 +415,19 @@ def shard(ctx) -> None:
             ctx.count("wide_union_types")
             ctx.histo("wide_union_shape", f"n={len(t.args)}:{'+'.join(sorted({a.kind for a in t.args}))}")
         pool = universe.U
+        if is_family_typeddict(t):
+            # dicts built around the class's own keys (each key omitted / alone / wrongly typed ...), the universe's
+            # dicts and a few non-dicts
+            ctx.count("typeddict_family_types")
+            total, how = prelude.TDI_SPEC[t.extra]
+            ctx.histo("typeddict_family_shape", f"class-total={total}|bases-total={sorted({prelude.TDI_SPEC[c][0] for _q, c in how.values() if c != t.extra})}|"
+                                                f"required={'none' if not any(r for _n, (_t, r) in t.args[0]) else 'some'}")
+            fam = [universe.Item(src, obj) for src, obj in tygen.typeddict_family_dicts(t)]
+            ctx.count("typeddict_family_objects", len(fam))
+            pool = fam + _DICT_ITEMS + _FEW_NON_DICTS
+        elif mentions_finite_class(t) and not (t.kind == "Union" and len(t.args) >= 9):
+            ctx.count("finite_class_types")
+            pool = universe.U + universe.UF
         if t.kind == "Union" and len(t.args) >= 9:
             # wide unions: all scalars, every object related to some member's top constructor, a few others
             n_scalar = len(universe.SCALAR_SRCS)
@@ -389,6 +460,10 @@ def shard(ctx) -> None:
             neg.sort(key=lambda x: not cross_type_equal(x[0].obj, t))
         if t.kind == "Union" and len(t.args) >= 9:
             pick = pos[:3] + neg[:3] + ctx.rng.sample(neg_other, min(1, len(neg_other)))  # many such types: fewer lines each
+        elif is_family_typeddict(t):
+            # many such types: a few lines each, the dicts built around the class's keys first (they lead the pool)
+            pick = pos[:2] + ctx.rng.sample(pos[2:], min(2, len(pos[2:]))) + neg[:1] + ctx.rng.sample(neg[1:], min(2, len(neg[1:])))
+            ctx.count("typeddict_family_assign_lines", len(pick))
         else:
             near_srcs = {it.src for it in near}
             neg_near = [x for x in neg if x[0].src in near_srcs][:2]  # nested near-misses come last in `neg`: reserve slots
@@ -462,6 +537,8 @@ def _ty_from_ast(node) -> Ty:
             return ty.Cls(names[n])
         if n in ("TD1", "TD2", "TD3"):
             return [s for s in tygen.SPECIAL if s.kind == "TypedDict" and s.extra == n][0]
+        if n.startswith("TDI_"):
+            return ty.typeddict_from_class(getattr(prelude, n))
         if n in ("NT", "NS"):
             return [s for s in tygen.SPECIAL if s.kind == "NewType" and s.extra[0] == n][0]
         return ty.Cls(getattr(prelude, n))
